@@ -162,6 +162,14 @@ class ProbeEngine(object):
         w.ops.append("get_system_info()")
         status, si = rigcall(w, self.allowed(), c.mc.get_system_info)
         if status == "exc":
+            if self.cur_target is not None:
+                # the exchange that failed was one chip's info request: that
+                # chip is left out, the probe itself goes on
+                w.violate("SI", "get_system_info was aborted (%s) by the "
+                          "failure of chip %r's info request instead of "
+                          "leaving that chip out"
+                          % (type(si).__name__, self.cur_target),
+                          kind="aborted-by-chip")
             return self.failed("get_system_info", si)
         live = {xy for xy, ch in m.chips.items() if not ch.dead}
         answering = {xy for xy in live if not m.chips[xy].unresponsive}
